@@ -18,8 +18,8 @@
   Time.  `now` is the virtual clock in ns; a clock read yields any value `≥ now`; the stamp of a
   clock value is `unitOf c = c / 10^9 / 2^tsShift` truncated to `stampBits` bits.  The state keeps
   the *untruncated* stamp of the head word (`hts`) as a ghost; labels and all decisions of the code
-  use `hts % 2^16`.  Ghost fields (`pub`, `supAt`, `freedT`, `ctorN`, `dtorN`, `freeN`, `pushed`,
-  `stampOf`, `stale`, `kindT`) never influence a label or a non-ghost field.
+  use `hts % 2^16`.  Ghost fields (`pub`, `supAt`, `freedT`, `ctorN`, `dtorN`, `freeN`, `tfreeN`, `rl`,
+  `pushed`, `stampOf`, `stale`) never influence a label or a non-ghost field.
   Core Lean only.
 -/
 import Babylon.Gen.CVec
@@ -142,7 +142,9 @@ structure State where
   freedT : Nat → Option (Option Nat)   -- freed table: `some (some c)` by retire/gc that observed clock `c`, `some none` otherwise
   ctorN : Nat → Nat                -- per block: times its elements were constructed
   dtorN : Nat → Nat
-  freeN : Nat → Nat                -- per allocation: times passed to operator delete
+  freeN : Nat → Nat                -- per block: times passed to operator delete
+  tfreeN : Nat → Nat               -- per table: times passed to delete_block_table
+  rl : List Nat                    -- tables linked in the retire list, head first
   pushed : Nat → Bool              -- the node of this table has been linked into the retire list
   stampOf : Nat → Nat              -- untruncated stamp a node was pushed with
   stale : Bool                     -- some push installed a stamp older than the one it replaced
@@ -154,7 +156,7 @@ def State.init (now : Nat) : State :=
   { cur := 0, tbl := fun _ => [], nalloc := 0, hts := 0, hnode := 0, next := fun _ => 0, now := now,
     pc := fun _ => .idle, result := fun _ => .none, snap := fun _ => none,
     pub := fun T => T == 0, supAt := fun _ => none, freedT := fun _ => none,
-    ctorN := fun _ => 0, dtorN := fun _ => 0, freeN := fun _ => 0,
+    ctorN := fun _ => 0, dtorN := fun _ => 0, freeN := fun _ => 0, tfreeN := fun _ => 0, rl := [],
     pushed := fun _ => false, stampOf := fun _ => 0, stale := false, destroyed := false }
 
 /-- inputs of a step that the model does not determine -/
@@ -169,64 +171,109 @@ def evCtor (c : Cfg) (id : Nat) : Act := .ev ["ctor", toString id, toString c.bs
 def evDtor (c : Cfg) (id : Nat) : Act := .ev ["dtor", toString id, toString c.bs]
 def evClock (v : Nat) : Act := .ev ["clock", toString v]
 
-/-- `create_block()` × n: ids `nalloc+1 …`; labels `new, ctor` per block -/
-def createBlocks (c : Cfg) (s : State) : Nat → State × List Nat × List Act
-  | 0 => (s, [], [])
-  | n + 1 =>
-    let b := s.nalloc + 1
-    let s1 := { s with nalloc := b, ctorN := upd s.ctorN b (s.ctorN b + 1) }
-    let (s2, bs, ls) := createBlocks c s1 n
-    (s2, b :: bs, evNew b (blockBytes c) :: evCtor c b :: ls)
+/-! #### thread-local work: what it does to the state, and what VRT shows of it -/
 
-/-- `delete_block(b)` for each block of the list: labels `dtor, del` -/
-def deleteBlocks (c : Cfg) (s : State) : List Nat → State × List Act
-  | [] => (s, [])
-  | b :: bs =>
-    let s1 := { s with dtorN := upd s.dtorN b (s.dtorN b + 1), freeN := upd s.freeN b (s.freeN b + 1) }
-    let (s2, ls) := deleteBlocks c s1 bs
-    (s2, evDtor c b :: evDel b (blockBytes c) :: ls)
+/-- ids of the next `n` allocations -/
+def madeIds (s : State) (n : Nat) : List Nat := List.range' (s.nalloc + 1) n
 
-/-- `delete_block_table(T)`: nothing for `EMPTY_BLOCK_TABLE` -/
-def deleteTable (s : State) (T : Nat) (by_ : Option Nat) : State × List Act :=
-  if T = 0 then (s, [])
-  else ({ s with freeN := upd s.freeN T (s.freeN T + 1), freedT := upd s.freedT T (some by_) },
-        [evDel T (tableBytes (s.tbl T).length)])
+/-- `create_block()` × n: n fresh allocations, the elements of each constructed once -/
+def created (s : State) (n : Nat) : State :=
+  { s with nalloc := s.nalloc + n, ctorN := fun b => if b ∈ madeIds s n then s.ctorN b + 1 else s.ctorN b }
+def createLabels (c : Cfg) (l : List Nat) : List Act := l.flatMap (fun b => [evNew b (blockBytes c), evCtor c b])
+
+/-- `delete_block(b)` for each block of the list: elements destroyed, memory freed -/
+def deleted (s : State) (l : List Nat) : State :=
+  { s with dtorN := fun b => s.dtorN b + l.count b, freeN := fun b => s.freeN b + l.count b }
+def deleteLabels (c : Cfg) (l : List Nat) : List Act := l.flatMap (fun b => [evDtor c b, evDel b (blockBytes c)])
+
+/-- `delete_block_table(T)` for each table of the list (nothing for `EMPTY_BLOCK_TABLE` = 0) -/
+def freedTables (s : State) (l : List Nat) (by_ : Option Nat) : State :=
+  { s with tfreeN := fun T => s.tfreeN T + (l.filter (· ≠ 0)).count T,
+           freedT := fun T => if T ≠ 0 ∧ T ∈ l then some by_ else s.freedT T }
+def freeLabels (s : State) (l : List Nat) : List Act :=
+  (l.filter (· ≠ 0)).map (fun T => evDel T (tableBytes (s.tbl T).length))
 
 /-- items of the list starting at node `n`, following `next` (at most `fuel` nodes) -/
 def walk (next : Nat → Nat) : Nat → Nat → List Nat
   | 0, _ => []
   | fuel + 1, n => if n = 0 then [] else (n - 1) :: walk next fuel (next n)
 
-/-- `delete_list(head)`: `D()(node->data); delete node` along the list -/
-def deleteList (s : State) (n : Nat) (by_ : Option Nat) : State × List Act :=
-  (walk s.next (s.nalloc + 2) n).foldl
-    (fun (acc : State × List Act) x => let (s', l) := deleteTable acc.1 x by_; (s', acc.2 ++ l)) (s, [])
+/-- the tables `delete_list(head)` frees, in order: `D()(node->data); delete node` along the list -/
+def listItems (s : State) (n : Nat) : List Nat := walk s.next (s.nalloc + 2) n
 
-/-- blocks of the table a thread is about to publish: the blocks of the table it copied + its own -/
-def newContent (s : State) (old : Nat) (made : List Nat) : List Nat := s.tbl old ++ made
+def resOf (c : Cfg) (bl : List Nat) : Kont → Res
+  | .ensure i => match elemAt c bl i with | some (b, o) => .elem i b o | none => .none
+  | .reserve => .unit
+  | .range b e => .segs (forEachSegs c bl b e)
 
 /-- the continuation of `get_qualified_block_table` once table `T` qualifies -/
 def finish (c : Cfg) (s : State) (t : Nat) (k : Kont) (T : Nat) : State :=
-  match k with
-  | .ensure i =>
-    { s with pc := upd s.pc t .idle,
-             result := upd s.result t (match elemAt c (s.tbl T) i with | some (b, o) => .elem i b o | none => .none) }
-  | .reserve => { s with pc := upd s.pc t .idle, result := upd s.result t .unit }
-  | .range b e => { s with pc := upd s.pc t .idle, result := upd s.result t (.segs (forEachSegs c (s.tbl T) b e)) }
+  { s with pc := upd s.pc t .idle, result := upd s.result t (resOf c (s.tbl T) k) }
 
 def finishS (c : Cfg) (s : State) (t : Nat) (k : SKont) (T : Nat) : State :=
   match k with
   | .snap => { s with pc := upd s.pc t .idle, snap := upd s.snap t (some T), result := upd s.result t (.table T) }
-  | .get i =>
-    { s with pc := upd s.pc t .idle,
-             result := upd s.result t (match elemAt c (s.tbl T) i with | some (b, o) => .elem i b o | none => .none) }
-
-/-- `get_qualified_block_table_slow`, from `create_block` loop to just before the CAS -/
-def prepare (c : Cfg) (s : State) (t : Nat) (nt old need : Nat) (k : Kont) : State × List Act :=
-  let (s1, made, ls) := createBlocks c s (need - (s.tbl old).length)
-  ({ s1 with pc := upd s1.pc t (.casT nt old need made k) }, ls)
+  | .get i => { s with pc := upd s.pc t .idle, result := upd s.result t (resOf c (s.tbl T) (.ensure i)) }
 
 def headMatches (s : State) (lts ln : Nat) : Bool := s.hnode == ln && s.hts % stampMod == lts % stampMod
+
+/-! #### the state after each kind of step -/
+
+/-- slow path up to the CAS: `create_block_table(need)` (id `nalloc + 1`), copy, create the missing blocks -/
+def gqSlow (s : State) (t need : Nat) (k : Kont) : State :=
+  let nt := s.nalloc + 1
+  let s1 := { s with nalloc := nt }
+  let n := need - (s.tbl s.cur).length
+  { created s1 n with pc := upd s.pc t (.casT nt s.cur need (madeIds s1 n) k) }
+
+/-- successful `_block_table.compare_exchange_strong(old, nt)`: `nt` = blocks of `old` + own blocks -/
+def casWin (s : State) (t nt old : Nat) (made : List Nat) (k : Kont) : State :=
+  { s with cur := nt, tbl := upd s.tbl nt (s.tbl old ++ made), pub := upd s.pub nt true,
+           supAt := upd s.supAt old (some s.now), pc := upd s.pc t (.rLoad old nt k) }
+
+/-- failed CAS, the winner's table is large enough: delete own blocks and the speculative table -/
+def casLoseDone (c : Cfg) (s : State) (t nt : Nat) (made : List Nat) (k : Kont) : State :=
+  finish c (freedTables (deleted s made) [nt] none) t k s.cur
+
+/-- failed CAS, still too small: delete own blocks, copy the winner's table, create blocks again -/
+def casLoseRetry (s : State) (t nt need : Nat) (made : List Nat) (k : Kont) : State :=
+  let s1 := deleted s made
+  let n := need - (s.tbl s.cur).length
+  { created s1 n with pc := upd s.pc t (.casT nt s.cur need (madeIds s1 n) k) }
+
+/-- retire's successful CAS in the expire branch: the new node replaces the whole list, which is freed -/
+def rCasXWin (c : Cfg) (s : State) (t x ln v nt : Nat) (k : Kont) : State :=
+  let s1 := { s with hts := unitOf v, hnode := x + 1, next := upd s.next (x + 1) 0, pushed := upd s.pushed x true,
+                     stampOf := upd s.stampOf (x + 1) (unitOf v), rl := [x] }
+  finish c (freedTables s1 (listItems s1 ln) (some v)) t k nt
+
+/-- retire's successful CAS in the retry loop: the new node is linked in front of the observed head -/
+def rCasWWin (c : Cfg) (s : State) (t x ln v nt : Nat) (k : Kont) : State :=
+  finish c { s with hts := unitOf v, hnode := x + 1, next := upd s.next (x + 1) ln, pushed := upd s.pushed x true,
+                    stampOf := upd s.stampOf (x + 1) (unitOf v), rl := x :: s.rl,
+                    stale := s.stale || (s.hnode != 0 && decide (unitOf v < s.hts)) } t k nt
+
+/-- after a failed CAS on the head: `head` now holds the observed value; next attempt -/
+def rRetry (c : Cfg) (s : State) (t x v nt : Nat) (k : Kont) : State :=
+  { s with pc := upd s.pc t (if c.reread then Pc.rClock2 x s.hts s.hnode nt k else .rCasW x s.hts s.hnode v nt k) }
+
+def gCasWin (s : State) (t ln v : Nat) : State :=
+  let s1 := { s with hts := 0, hnode := 0, rl := [] }
+  let s2 := freedTables s1 (listItems s1 ln) (some v)
+  { s2 with pc := upd s.pc t .idle, result := upd s.result t .unit }
+
+def retUnit (s : State) (t : Nat) : State := { s with pc := upd s.pc t .idle, result := upd s.result t .unit }
+
+/-- `~ConcurrentVector` up to `unsafe_gc`: delete every block of the current table, then the table -/
+def xLoadSt (s : State) (t : Nat) : State :=
+  { freedTables (deleted s (s.tbl s.cur)) [s.cur] none with pc := upd s.pc t .xXchg, destroyed := true }
+
+def xXchgSt (s : State) (t : Nat) : State :=
+  let s1 := { s with hts := 0, hnode := 0, rl := [] }
+  { freedTables s1 (listItems s1 s.hnode) none with pc := upd s.pc t .xLoad2 }
+
+def xLoad2St (s : State) (t : Nat) : State :=
+  { freedTables s (listItems s s.hnode) none with pc := upd s.pc t .idle, result := upd s.result t .unit }
 
 /-- The next step of thread `t`: new state and the labels VRT shows for it. -/
 def stepThread (c : Cfg) (s : State) (t : Nat) (inp : Inp) : Option (State × List Act) :=
@@ -236,26 +283,20 @@ def stepThread (c : Cfg) (s : State) (t : Nat) (inp : Inp) : Option (State × Li
     let l := Act.ld "tbl" 0 .acq s.cur
     if (s.tbl s.cur).length ≥ need then some (finish c s t k s.cur, [l])
     else
-      -- create_block_table(need), then the first round of block creation
-      let nt := s.nalloc + 1
-      let s1 := { s with nalloc := nt }
-      let (s2, ls) := prepare c s1 t nt s.cur need k
-      some (s2, l :: evNew nt (tableBytes need) :: ls)
+      some (gqSlow s t need k,
+            l :: evNew (s.nalloc + 1) (tableBytes need) ::
+              createLabels c (madeIds { s with nalloc := s.nalloc + 1 } (need - (s.tbl s.cur).length)))
   | .casT nt old need made k =>
     if s.cur = old then
-      let s1 := { s with cur := nt, tbl := upd s.tbl nt (newContent s old made), pub := upd s.pub nt true,
-                         supAt := upd s.supAt old (some s.now), pc := upd s.pc t (.rLoad old nt k) }
-      some (s1, [.cas "tbl" 0 false .acqrel .acq old nt true s.cur])
+      some (casWin s t nt old made k, [.cas "tbl" 0 false .acqrel .acq old nt true s.cur])
     else
       let l := Act.cas "tbl" 0 false .acqrel .acq old nt false s.cur
-      let (s1, ld) := deleteBlocks c s made
-      if (s1.tbl s1.cur).length ≥ need then
-        -- somebody else grew the vector far enough: drop the speculative table (its `size` field is `need`)
-        let s2 := { s1 with freeN := upd s1.freeN nt (s1.freeN nt + 1), freedT := upd s1.freedT nt (some none) }
-        some (finish c s2 t k s1.cur, l :: ld ++ [evDel nt (tableBytes need)])
+      if (s.tbl s.cur).length ≥ need then
+        -- the speculative table's `size` field is `need`
+        some (casLoseDone c s t nt made k, l :: deleteLabels c made ++ [evDel nt (tableBytes need)])
       else
-        let (s2, ls) := prepare c s1 t nt s1.cur need k
-        some (s2, l :: ld ++ ls)
+        some (casLoseRetry s t nt need made k,
+              l :: deleteLabels c made ++ createLabels c (madeIds s (need - (s.tbl s.cur).length)))
   | .rLoad x nt k =>
     some ({ s with pc := upd s.pc t (.rClock x s.hts s.hnode nt k) }, [.ld "head" 0 .acq (headWord s.hts s.hnode)])
   | .rClock x lts ln nt k =>
@@ -270,13 +311,11 @@ def stepThread (c : Cfg) (s : State) (t : Nat) (inp : Inp) : Option (State × Li
     let obs := headWord s.hts s.hnode
     if headMatches s lts ln then
       -- node->next = nullptr; the replaced list is deleted
-      let s1 := { s with hts := unitOf v, hnode := x + 1, next := upd s.next (x + 1) 0, pushed := upd s.pushed x true,
-                         stampOf := upd s.stampOf (x + 1) (unitOf v) }
-      let (s2, ls) := deleteList s1 ln (some v)
-      some (finish c s2 t k nt, .cas "head" 0 false .acqrel .acq exp des true obs :: ls)
+      some (rCasXWin c s t x ln v nt k,
+            .cas "head" 0 false .acqrel .acq exp des true obs ::
+              freeLabels s (listItems { s with next := upd s.next (x + 1) 0 } ln))
     else
-      let nxt := if c.reread then Pc.rClock2 x s.hts s.hnode nt k else .rCasW x s.hts s.hnode v nt k
-      some ({ s with pc := upd s.pc t nxt }, [.cas "head" 0 false .acqrel .acq exp des false obs])
+      some (rRetry c s t x v nt k, [.cas "head" 0 false .acqrel .acq exp des false obs])
   | .rClock2 x lts ln nt k =>
     if inp.clock < s.now then none else
     some ({ s with now := inp.clock, pc := upd s.pc t (.rCasW x lts ln inp.clock nt k) }, [evClock inp.clock])
@@ -285,43 +324,30 @@ def stepThread (c : Cfg) (s : State) (t : Nat) (inp : Inp) : Option (State × Li
     let des := headWord (unitOf v) (x + 1)
     let obs := headWord s.hts s.hnode
     if headMatches s lts ln ∧ ¬ inp.spurious then
-      let s1 := { s with hts := unitOf v, hnode := x + 1, next := upd s.next (x + 1) ln, pushed := upd s.pushed x true,
-                         stampOf := upd s.stampOf (x + 1) (unitOf v),
-                         stale := s.stale || (s.hnode != 0 && decide (unitOf v < s.hts)) }
-      some (finish c s1 t k nt, [.cas "head" 0 true .acqrel .acq exp des true obs])
+      some (rCasWWin c s t x ln v nt k, [.cas "head" 0 true .acqrel .acq exp des true obs])
     else
-      let nxt := if c.reread then Pc.rClock2 x s.hts s.hnode nt k else .rCasW x s.hts s.hnode v nt k
-      some ({ s with pc := upd s.pc t nxt }, [.cas "head" 0 true .acqrel .acq exp des false obs])
+      some (rRetry c s t x v nt k, [.cas "head" 0 true .acqrel .acq exp des false obs])
   | .gLoad =>
     some ({ s with pc := upd s.pc t (.gClock s.hts s.hnode) }, [.ld "head" 0 .acq (headWord s.hts s.hnode)])
   | .gClock lts ln =>
     if inp.clock < s.now then none else
     let v := inp.clock
     if expired lts (unitOf v) then some ({ s with now := v, pc := upd s.pc t (.gCas lts ln v) }, [evClock v])
-    else some ({ s with now := v, pc := upd s.pc t .idle, result := upd s.result t .unit }, [evClock v])
+    else some (retUnit { s with now := v } t, [evClock v])
   | .gCas lts ln v =>
     let exp := headWord lts ln
     let obs := headWord s.hts s.hnode
     if headMatches s lts ln then
-      let s1 := { s with hts := 0, hnode := 0 }
-      let (s2, ls) := deleteList s1 ln (some v)
-      some ({ s2 with pc := upd s2.pc t .idle, result := upd s2.result t .unit },
-            .cas "head" 0 false .acqrel .acq exp 0 true obs :: ls)
+      some (gCasWin s t ln v, .cas "head" 0 false .acqrel .acq exp 0 true obs :: freeLabels s (listItems s ln))
     else
-      some ({ s with pc := upd s.pc t .idle, result := upd s.result t .unit },
-            [.cas "head" 0 false .acqrel .acq exp 0 false obs])
+      some (retUnit s t, [.cas "head" 0 false .acqrel .acq exp 0 false obs])
   | .sLoad k => some (finishS c s t k s.cur, [.ld "tbl" 0 .acq s.cur])
   | .xLoad =>
-    let (s1, ld) := deleteBlocks c s (s.tbl s.cur)
-    let (s2, lt) := deleteTable s1 s1.cur none
-    some ({ s2 with pc := upd s2.pc t .xXchg, destroyed := true }, .ld "tbl" 0 .rlx s.cur :: ld ++ lt)
+    some (xLoadSt s t, .ld "tbl" 0 .rlx s.cur :: deleteLabels c (s.tbl s.cur) ++ freeLabels s [s.cur])
   | .xXchg =>
-    let s1 := { s with hts := 0, hnode := 0 }
-    let (s2, ls) := deleteList s1 s.hnode none
-    some ({ s2 with pc := upd s2.pc t .xLoad2 }, .xchg "head" 0 .rlx (headWord s.hts s.hnode) 0 :: ls)
+    some (xXchgSt s t, .xchg "head" 0 .rlx (headWord s.hts s.hnode) 0 :: freeLabels s (listItems s s.hnode))
   | .xLoad2 =>
-    let (s2, ls) := deleteList s s.hnode none
-    some ({ s2 with pc := upd s2.pc t .idle, result := upd s2.result t .unit }, .ld "head" 0 .rlx (headWord s.hts s.hnode) :: ls)
+    some (xLoad2St s t, .ld "head" 0 .rlx (headWord s.hts s.hnode) :: freeLabels s (listItems s s.hnode))
 
 /-! ### calls (client contract) -/
 
